@@ -69,7 +69,7 @@ def specPrefixStatuses (pre : List Char) : List (List Char) → List Status
       | .stop .err => true
       | _ => false
     if isErr then [.err] else
-    match Spec.Unfinished p with
+    match Spec.UnfinishedPrefix p with
     | none => [.err]
     | some true => .more :: specPrefixStatuses p rest
     | some false => .done :: specPrefixStatuses p rest
